@@ -426,7 +426,11 @@ func configEntry(kind, name string, v int) structs.ConfigEntry {
 var defaultEM = *structs.DefaultEnterpriseMetaInDefaultPartition()
 
 func registerNode(idx uint64, node string, v int) *vs.Op {
-	return vs.NewRegister(idx, &structs.RegisterRequest{Datacenter: "dc1", Node: node, ID: vs.NodeIDs[node],
+	id := vs.NodeIDs[node]
+	if idx%3 == 0 { // (raft indexes are drawn with random gaps)
+		id = "" // a node registered without an ID (older agents, external registrations): lookups by name only
+	}
+	return vs.NewRegister(idx, &structs.RegisterRequest{Datacenter: "dc1", Node: node, ID: id,
 		Address: fmt.Sprintf("10.%d.0.%s", v%200, node[1:]), EnterpriseMeta: defaultEM})
 }
 
@@ -534,6 +538,9 @@ func Build(s *state.Store, h *Header, r *Run, sup [2]uint64) *Built {
 		n := structs.Node{Node: e.Node, ID: vs.NodeIDs[e.Node], Address: fmt.Sprintf("10.9.%d.%d", r.Idx%250, r.V%250), Datacenter: "dc1"}
 		if _, cur, _ := s.GetNode(e.Node, nil, ""); cur != nil {
 			n.ID = cur.ID // the agent re-registers under its own ID
+			if cur.ID == "" && r.Idx%2 == 0 {
+				n.ID = vs.NodeIDs[e.Node] // ... or brings one for a node that was stored without (the node is still found by name)
+			}
 			if r.Same {
 				n = *cur
 				n.RaftIndex = structs.RaftIndex{}
